@@ -510,6 +510,51 @@ def run_settings(acc):
     from pint.delegates.formatter._compound_unit_helpers import sort_by_dimensionality, sort_by_unit_name
 
     units = {"kilogram": 1, "meter": 2, "second": -3, "ampere": -1}
+    # units WITHOUT a dimension (radian, count, percent, steradian) are units like any other for every sort function
+    for units2 in ({"radian": 1, "meter": 1, "second": -1}, {"percent": 1}, {"count": 1, "second": -1}, {"candela": 1, "steradian": -1}, {"radian": 2}):
+        for sf_name, sf in (("none", None), ("by-name", sort_by_unit_name), ("by-dimensionality", sort_by_dimensionality)):
+            ureg = regs.default("float", fresh=True)
+            ureg.formatter.default_sort_func = sf
+            u = ureg.Unit(ureg.UnitsContainer(units2))
+            for spec in ("D", "~D", "C", "~C", "P", "~P", "H", "~H", "L", "~L", "Lx"):
+                acc.ev()
+                acc.nt(("settings-dimensionless", tuple(sorted(units2.items())), sf_name, spec))
+                case = {"units": units2, "sort": sf_name, "spec": spec}
+                o = render(lambda: format(u, spec))
+                o2 = render(lambda: format(ureg.Quantity(2.5, u), spec))
+                if o[0] != "ok" or o2[0] != "ok":
+                    acc.violation(["settings", fam(spec), "formatting-raises", "dimensionless-unit-under-a-sort-function"], case, "a string", o[1] if o[0] != "ok" else o2[1])
+                    continue
+                try:
+                    got = read(spec, o[1], prefix_names)
+                except ReadError as e:
+                    acc.violation(["settings", fam(spec), "rendering-unreadable", ""], case, "readable", [o[1], str(e)])
+                    continue
+                want = expected_tokens(M, units2, spec)
+                if got != want:
+                    acc.violation(["settings", fam(spec), "rendering-denotes-a-different-unit", ""], case, {k: str(v) for k, v in want.items()}, [o[1], {k: str(v) for k, v in got.items()}])
+    # every canonical unit, alone and over a second, under every sort function
+    for sf_name, sf in (("none", None), ("by-name", sort_by_unit_name), ("by-dimensionality", sort_by_dimensionality)):
+        ureg = regs.default("float", fresh=True)
+        ureg.formatter.default_sort_func = sf
+        for name in M.order:
+            for units3 in ({name: 1}, {name: 1, "second": -1} if name != "second" else {name: 2}):
+                u = ureg.Unit(ureg.UnitsContainer(units3))
+                for spec in ("~P", "D"):
+                    acc.ev()
+                    acc.nt(("settings-allunits", name, len(units3), sf_name, spec))
+                    o = render(lambda: format(u, spec))
+                    case = {"units": units3, "sort": sf_name, "spec": spec}
+                    if o[0] != "ok":
+                        acc.violation(["settings", fam(spec), "formatting-raises", "canonical-unit-under-a-sort-function"], case, "a string", o[1])
+                        continue
+                    try:
+                        got = read(spec, o[1], prefix_names)
+                    except ReadError as e:
+                        continue  # (readability of every unit's rendering is run_units' subject)
+                    want = expected_tokens(M, units3, spec)
+                    if got != want:
+                        acc.violation(["settings", fam(spec), "rendering-denotes-a-different-unit", "canonical-unit-under-a-sort-function"], case, {k: str(v) for k, v in want.items()}, [o[1], {k: str(v) for k, v in got.items()}])
     for dfmt in ("", "~P", ".2f~", "C", "~L"):
         for sep in (None, True, False):
             for sf_name, sf in (("none", None), ("by-name", sort_by_unit_name), ("by-dimensionality", sort_by_dimensionality)):
